@@ -1,19 +1,21 @@
-import CoapVerif.Lemmas.Edit
+import CoapVerif.Lemmas.EditWf
 /-
 C04 — in-place message edits change only what they name.
 
   S = Spec.applyEdit on (token, ordered option list, payload)     (Spec/Encode.lean)
   M = M.insertOption / M.updateOption / M.removeOption / M.updateToken   (Model/Build.lean)
 
-STATUS.
- * proved in full: the frame theorems about S (`edit_frame`, `edits_keep_order`, `edit_sequence_keeps_order`);
-   `update_token_refines` (coap_update_token, all three memmove directions, any token length 0..65804);
-   `roundtrip_of_refined` (whatever PDU represents a well-formed abstract message serialises and re-parses to it).
- * NOT proved: `insert_refines`, `update_refines`, `remove_refines` (the six next-header rewrite cases of
-   coap_insert_option / coap_remove_option and the splice of coap_update_option) and therefore
-   `edits_then_roundtrip` for sequences containing those edits.  Their intended statements are at the end of this
-   file.  For these three editors the correspondence M = I is measured by T2 only, and "M refines S" is observed
-   (I vs S on every generated case), not proved.
+STATUS: proved in full.
+ * S side: the frame theorems (`edit_frame`, `edits_keep_order`, `edit_sequence_keeps_order`).
+ * M refines S, per editor, for EVERY abstract message the API can produce (`Shape`), every argument, every capacity,
+   refusals included: `insert_refines` (+ closed form `insert_refines_middle`), `update_refines` (+ `update_refines_present`),
+   `remove_refines`, `update_token_refines`.  Helper lemmas: Lemmas/EditItems.lean (iterator over the canonical buffer =
+   abstract option list), Lemmas/EditPatch.lean (the byte-level key lemma: next-option header rewrite = canonical header
+   with the new delta, all size classes), Lemmas/EditRefine.lean, Lemmas/EditApi.lean, Lemmas/EditTrace.lean.
+ * whole sequences + round trip: `edits_then_roundtrip` (`roundtrip_of_refined` is its second half).
+ * The OPEN finding hop-limit-left-by-refused-proxy is not excluded but characterised exactly: it is the third
+   alternative of `EditOutcome` / the `leftover` constructor of `EditTrace` (witness: C01.refused_proxy_leaves_hop_limit
+   and the example at the end of this file).
 -/
 namespace Coap.C04
 open Coap Coap.M
@@ -135,14 +137,245 @@ example : Spec.applyEdit false ⟨0, 1, 7, [1], [(3, [0x68]), (11, [0x61]), (300
 example : Spec.applyEdit true ⟨0, 1, 7, [], [(11, [0x61])], []⟩ (.insert 35 [0x78]) =
     ⟨0, 1, 7, [], [(11, [0x61]), (16, [16]), (35, [0x78])], []⟩ := by decide
 
-/-
-INTENDED, NOT PROVED (with `conc`, `Shape` from Lemmas/BuildDefs.lean):
+/-- the possible outcomes of an option-adding edit `e` of option `n` (an insertion, or an update of an absent option):
+accepted = the abstract edit of S, with D13's implicit Hop-Limit only where D13 allows it; refused = nothing changes
+(D14); the third alternative is the OPEN finding hop-limit-left-by-refused-proxy, characterised exactly: the call is a
+Proxy-Uri / Proxy-Scheme on a request without Hop-Limit, and what is left behind is precisely Hop-Limit = 16 -/
+def EditOutcome (a : Msg) (n : Nat) (e : Spec.Edit) (rc : Nat) (a' : Msg) : Prop :=
+  (rc ≠ 0 ∧ ∃ hop : Bool, (hop = true → Spec.hopApplies a.code n a.opts = true) ∧ a' = Spec.applyEdit hop a e) ∨
+  (rc = 0 ∧ a' = a) ∨
+  (rc = 0 ∧ Spec.hopApplies a.code n a.opts = true ∧ a' = { a with opts := Spec.insertStable 16 [16] a.opts })
 
-  insert_refines       : Shape a → n < lastNum a.opts → v.length ≤ 65804 → fits ms a (encOpt …).length →
-                         M.insertOption (conc ms a) n v = R.ok (shift, conc ms (Spec.applyEdit false a (.insert n v)))
-  update_refines       : Shape a → hasOpt n a.opts → … →
-                         M.updateOption (conc ms a) n v = R.ok (1, conc ms (Spec.applyEdit false a (.update n v)))
-  remove_refines       : Shape a → M.removeOption (conc ms a) n = R.ok (rc, conc ms (if rc = 0 then a else Spec.applyEdit false a (.remove n)))
-  edits_then_roundtrip : after any accepted edit sequence Spec.decode p (bytes) = some (onWire p (fold of the abstract edits))
--/
+/-- **coap_insert_option refines the abstract insertion**, for every abstract message the builders/editors can
+produce (`Shape`), every option number, every value (too long included), every capacity: the result is again a
+representing PDU (never out of bounds), accepted ⇒ it represents `Spec.applyEdit … (.insert n v)` (append path, the six
+next-header rewrite cases of the middle path, implicit Hop-Limit), refused ⇒ see `EditOutcome`; and a call is refused
+only for a value the wire format cannot carry, an illegal repetition, or lack of space. -/
+theorem insert_refines (ms : Nat) (a : Msg) (n : Nat) (v : Bytes) (hs : Shape a) (hn : n ≤ 65535) :
+    ∃ rc a', insertOption (conc ms a) n v = R.ok (rc, conc ms a') ∧ Shape a' ∧
+      EditOutcome a n (.insert n v) rc a' ∧
+      (rc = 0 → v.length > 65804 ∨ (n = lastNum a.opts ∧ ¬ repeatable n = true) ∨ ms ≠ 0) := by
+  refine ⟨_, _, insertOption_conc ms a n v hs hn, absInsert_shape ms a n v hs hn, ?_, ?_⟩
+  · rcases absInsert_cases ms a n v with ⟨k1, hop, k2, k3⟩ | ⟨k1, k2, _⟩ | ⟨k1, k2, k3, _⟩
+    · exact Or.inl ⟨k1, hop, k2, k3⟩
+    · exact Or.inr (Or.inl ⟨k1, k2⟩)
+    · exact Or.inr (Or.inr ⟨k1, k2, k3⟩)
+  · intro h0
+    rcases absInsert_cases ms a n v with ⟨k1, _⟩ | ⟨_, _, k3⟩ | ⟨_, _, _, k4⟩
+    · exact absurd h0 k1
+    · exact k3
+    · exact Or.inr (Or.inr k4)
+
+/-- the middle path in closed form (the statement announced in design/C04.md): an insertion below the highest option
+number that fits is accepted, returns the encoded size, never adds anything else, and yields exactly the stable
+insertion — whichever of the six header-rewrite cases the following option needs -/
+theorem insert_refines_middle (ms : Nat) (a : Msg) (n : Nat) (v : Bytes) (hs : Shape a) (hn : n < lastNum a.opts)
+    (hv : v.length ≤ 65804) (hfit : fits ms a (Spec.encOpt (n - prevNum n a.opts) v).length) :
+    insertOption (conc ms a) n v =
+      R.ok ((Spec.encOpt (n - prevNum n a.opts) v).length, conc ms (Spec.applyEdit false a (.insert n v))) := by
+  have hn2 : n ≤ 65535 := by
+    have hB := optsB_of_shape hs
+    rcases lastD_le_of_optsB hB with h | h
+    · have : lastNum a.opts = lastD 0 a.opts := rfl
+      omega
+    · rw [h] at hn; simp [lastNum] at hn
+  rw [insertOption_conc ms a n v hs hn2]
+  unfold absInsert
+  rw [if_neg (by omega), if_neg (by omega)]
+  unfold absPlace
+  have hfit' : ms = 0 ∨ (conc ms a).buf.length + (Spec.encOpt (n - prevNum n a.opts) v).length ≤ ms := hfit
+  rw [if_pos hfit']
+  rfl
+
+/-- **coap_remove_option refines the abstract removal**, unconditionally: the first option with that number goes (the
+following option's delta absorbs its delta — six header-growth cases — or `max_opt` falls back when it was the last),
+everything else stays; return value 1 iff there was such an option -/
+theorem remove_refines (ms : Nat) (a : Msg) (n : Nat) (hs : Shape a) :
+    removeOption (conc ms a) n =
+      R.ok ((if Spec.hasOpt n a.opts = true then 1 else 0), conc ms (Spec.applyEdit false a (.remove n))) ∧
+    Shape (Spec.applyEdit false a (.remove n)) := by
+  refine ⟨?_, Shape_remove a n hs⟩
+  rw [removeOption_conc ms a n hs]
+  cases hh : Spec.hasOpt n a.opts with
+  | true => rfl
+  | false =>
+    have : Spec.applyEdit false a (.remove n) = a := by
+      show ({ a with opts := Spec.removeFirst n a.opts } : Msg) = a
+      rw [removeFirst_absent n a.opts hh]
+    rw [this]; rfl
+
+/-- **coap_update_option refines the abstract update**: present ⇒ the first option with that number gets the new value
+in place (any length change, capacity needed only for growth), absent ⇒ it is an insertion (`insert_refines`) -/
+theorem update_refines (ms : Nat) (a : Msg) (n : Nat) (v : Bytes) (hs : Shape a) (hn : n ≤ 65535) :
+    ∃ rc a', updateOption (conc ms a) n v = R.ok (rc, conc ms a') ∧ Shape a' ∧
+      (Spec.hasOpt n a.opts = true →
+        (rc ≠ 0 ∧ a' = Spec.applyEdit false a (.update n v)) ∨ (rc = 0 ∧ a' = a ∧ (v.length > 65804 ∨ ms ≠ 0))) ∧
+      (Spec.hasOpt n a.opts = false → EditOutcome a n (.update n v) rc a' ∧
+        (rc = 0 → v.length > 65804 ∨ (n = lastNum a.opts ∧ ¬ repeatable n = true) ∨ ms ≠ 0)) := by
+  refine ⟨_, _, updateOption_conc ms a n v hs hn, absCall_shape ms a (.updateOption n v) hs hn, ?_, ?_⟩
+  · intro hh
+    unfold absUpdate
+    by_cases hv : v.length > 65804
+    · rw [if_pos hv]; exact Or.inr ⟨rfl, rfl, Or.inl hv⟩
+    · rw [if_neg hv, if_pos hh]
+      split
+      · left; refine ⟨by simp, ?_⟩
+        simp [Spec.applyEdit, hh]
+      · rename_i hnf
+        exact Or.inr ⟨rfl, rfl, Or.inr (fun h0 => hnf (Or.inr (Or.inl h0)))⟩
+  · intro hh
+    have hu : absUpdate ms a n v = absInsert ms a n v := by
+      unfold absUpdate absInsert
+      by_cases hv : v.length > 65804
+      · rw [if_pos hv, if_pos hv]
+      · rw [if_neg hv, if_neg hv, hh]; simp
+    have hsem : ∀ hop, Spec.applyEdit hop a (.update n v) = { a with opts := Spec.addSem hop n v a.opts } := by
+      intro hop; simp [Spec.applyEdit, hh]
+    rw [hu]
+    constructor
+    · rcases absInsert_cases ms a n v with ⟨k1, hop, k2, k3⟩ | ⟨k1, k2, _⟩ | ⟨k1, k2, k3, _⟩
+      · exact Or.inl ⟨k1, hop, k2, by rw [hsem]; exact k3⟩
+      · exact Or.inr (Or.inl ⟨k1, k2⟩)
+      · exact Or.inr (Or.inr ⟨k1, k2, k3⟩)
+    · intro h0
+      rcases absInsert_cases ms a n v with ⟨k1, _⟩ | ⟨_, _, k3⟩ | ⟨_, _, _, k4⟩
+      · exact absurd h0 k1
+      · exact k3
+      · exact Or.inr (Or.inr k4)
+
+/-- the replacement path in closed form: a present option whose new encoding fits (always, when it does not grow) is
+replaced, return value 1 -/
+theorem update_refines_present (ms : Nat) (a : Msg) (n : Nat) (v : Bytes) (hs : Shape a) (hv : v.length ≤ 65804)
+    (hh : Spec.hasOpt n a.opts = true)
+    (hfit : (conc ms (Spec.applyEdit false a (.update n v))).buf.length ≤ (conc ms a).buf.length ∨ ms = 0 ∨
+            (conc ms (Spec.applyEdit false a (.update n v))).buf.length ≤ ms) :
+    updateOption (conc ms a) n v = R.ok (1, conc ms (Spec.applyEdit false a (.update n v))) := by
+  have he : Spec.applyEdit false a (.update n v) = { a with opts := Spec.replaceFirst n v a.opts } := by
+    simp [Spec.applyEdit, hh]
+  rw [he] at hfit ⊢
+  rw [updateOption_found ms a n v hs hv hh, if_pos hfit]
+
+/- `callOf` (the API call performing an abstract edit), `editNumOk` (option numbers are 16 bits wide) and `EditTrace`
+(the same edits applied to the abstract model, with M's return codes: `accepted` = `Spec.applyEdit`, `refused` = nothing
+changes, `leftover` = the open finding) are defined in Lemmas/EditTrace.lean. -/
+
+/-- **C04, M side, whole sequences**: any sequence of option insertions, updates, removals and token replacements,
+performed by M on the PDU representing `a` (any capacity — refusals included), never leaves the buffer and ends on the
+PDU that represents the same edits applied to the abstract (token, ordered option list, payload) model; and whenever that
+abstract result is well-formed for a framing (the caller kept the RFC's per-option length limits), the edited PDU
+serialises and the bytes decode to exactly that model (`onWire`: D3). -/
+theorem edits_then_roundtrip (ms : Nat) (a : Msg) (es : List Spec.Edit) (hs : Shape a) (hn : ∀ e ∈ es, editNumOk e) :
+    ∃ rcs a', run (conc ms a) (es.map callOf) = R.ok (rcs, conc ms a') ∧ EditTrace a es rcs a' ∧ Shape a' ∧
+      ∀ p, Spec.WF p a' →
+        ∃ bytes, serialise p (conc ms a') = some bytes ∧ Spec.decode p bytes = some (Spec.onWire p a') := by
+  have hc : ∀ c ∈ es.map callOf, callNumOk c := by
+    intro c hc
+    obtain ⟨e, he, rfl⟩ := List.mem_map.mp hc
+    have := hn e he
+    cases e <;> exact this
+  obtain ⟨rcs, a', h1, h2, h3⟩ := run_refines ms a (es.map callOf) hs hc
+  refine ⟨rcs, a', h1, editTrace_of_trace es a a' rcs h2, h3, ?_⟩
+  intro p hwf
+  obtain ⟨hty, hcode, hmid, ht, _, _, hlen⟩ := hwf
+  exact ⟨Spec.encode p a', serialise_conc p ms a' hty hcode hmid ht hlen,
+         Coap.decode_encode p a' ⟨hty, hcode, hmid, ht, by assumption, by assumption, hlen⟩⟩
+
+/-- edits of RECEIVED messages start from a representing PDU too: what `coap_pdu_parse` leaves behind for an accepted
+message (`M.ofParsed`: the received bytes behind the fixed header, `max_opt` = last option number, `data` = offset
+behind the marker) is `conc ms m` for the decoded `m`, on every framing, and `m` satisfies `Shape` -/
+theorem parsed_start_is_refined (ms : Nat) (p : Proto) (wire : Bytes) (m : Msg) (h : Spec.decode p wire = some m) :
+    ofParsed ms m (wire.drop (headerSize p (wire.headD 0).toNat)) = conc ms m ∧ Shape m :=
+  parsed_start ms p wire m h
+
+/-- well-formedness is kept: if the message was well-formed and every inserted / updated value respects the RFC length
+limit of its option (`editLenOk`), the edited abstract message is well-formed again (on tcp: as long as it still fits
+the 32-bit extended length) — including D13's implicit Hop-Limit and the open finding's leftover one -/
+theorem edits_keep_wellformed (p : Proto) (a a' : Msg) (es : List Spec.Edit) (rcs : List Nat) (h : EditTrace a es rcs a')
+    (hs : Shape a') (hwf : Spec.WF p a) (hc : a.code ≠ 0) (he : ∀ e ∈ es, editLenOk a.code e)
+    (htcp : p = .tcp → (Spec.encRest a').length < 65805 + 4294967296) : Spec.WF p a' :=
+  editTrace_wf p h hs hwf hc he htcp
+
+/-- **C04 end to end** (hypotheses on the inputs only): a well-formed non-Empty message, any sequence of edits whose
+values respect the RFC length limits, any capacity ⇒ M ends on the PDU representing the same edits applied to the
+abstract model, and its serialisation decodes to exactly that model -/
+theorem edits_then_roundtrip_wf (p : Proto) (ms : Nat) (a : Msg) (es : List Spec.Edit) (hwf : Spec.WF p a) (hc : a.code ≠ 0)
+    (hn : ∀ e ∈ es, editNumOk e) (he : ∀ e ∈ es, editLenOk a.code e) :
+    ∃ rcs a', run (conc ms a) (es.map callOf) = R.ok (rcs, conc ms a') ∧ EditTrace a es rcs a' ∧
+      ((p = .tcp → (Spec.encRest a').length < 65805 + 4294967296) →
+        Spec.WF p a' ∧
+        ∃ bytes, serialise p (conc ms a') = some bytes ∧ Spec.decode p bytes = some (Spec.onWire p a')) := by
+  have hs : Shape a := Shape_of_optsOk a hwf.2.2.2.1 hwf.2.2.2.2.1
+  obtain ⟨rcs, a', h1, h2, h3, h4⟩ := edits_then_roundtrip ms a es hs hn
+  refine ⟨rcs, a', h1, h2, ?_⟩
+  intro htcp
+  have hwf' := edits_keep_wellformed p a a' es rcs h2 h3 hwf hc he htcp
+  exact ⟨hwf', h4 p hwf'⟩
+
+/-! ### non-vacuity of the M-side theorems: concrete instances (by evaluation of M) -/
+
+/-- the message used below: 9 bytes behind the header; option 300 is encoded with a two-byte delta extension (297) -/
+example : Shape ⟨0, 1, 7, [1], [(3, [0x68]), (300, [1])], [9]⟩ ∧
+    (conc 0 ⟨0, 1, 7, [1], [(3, [0x68]), (300, [1])], [9]⟩).buf = [1, 0x31, 0x68, 0xe1, 0x00, 0x1c, 1, 0xff, 9] := by
+  unfold Shape; decide
+
+/-- insertion in the middle: the following option's header shrinks by two bytes (delta 297 → 10) … -/
+example : insertOption (conc 0 ⟨0, 1, 7, [1], [(3, [0x68]), (300, [1])], [9]⟩) 290 [0x62] =
+    R.ok (4, conc 0 ⟨0, 1, 7, [1], [(3, [0x68]), (290, [0x62]), (300, [1])], [9]⟩) := by decide
+/-- … by one byte (delta 297 → 200) -/
+example : insertOption (conc 0 ⟨0, 1, 7, [1], [(3, [0x68]), (300, [1])], [9]⟩) 100 [0x62] =
+    R.ok (3, conc 0 ⟨0, 1, 7, [1], [(3, [0x68]), (100, [0x62]), (300, [1])], [9]⟩) := by decide
+/-- refused for lack of space (capacity 11: 9 + 3 > 11 — the later shrink by one is not counted by the code), unchanged -/
+example : insertOption (conc 11 ⟨0, 1, 7, [1], [(3, [0x68]), (300, [1])], [9]⟩) 100 [0x62] =
+    R.ok (0, conc 11 ⟨0, 1, 7, [1], [(3, [0x68]), (300, [1])], [9]⟩) := by decide
+/-- the instance of `insert_refines` for that call (hypotheses discharged by evaluation) -/
+example : ∃ rc a', insertOption (conc 11 ⟨0, 1, 7, [1], [(3, [0x68]), (300, [1])], [9]⟩) 100 [0x62] = R.ok (rc, conc 11 a') ∧
+    Shape a' ∧ EditOutcome ⟨0, 1, 7, [1], [(3, [0x68]), (300, [1])], [9]⟩ 100 (.insert 100 [0x62]) rc a' ∧
+    (rc = 0 → ([0x62] : Bytes).length > 65804 ∨
+      (100 = lastNum [(3, [0x68]), (300, [(1 : UInt8)])] ∧ ¬ repeatable 100 = true) ∨ 11 ≠ 0) :=
+  insert_refines 11 ⟨0, 1, 7, [1], [(3, [0x68]), (300, [1])], [9]⟩ 100 [0x62] (by unfold Shape; decide) (by decide)
+example : insertOption (conc 12 ⟨0, 1, 7, [1], [(3, [0x68]), (300, [1])], [9]⟩) 100 [0x62] =
+    R.ok ((Spec.encOpt (100 - prevNum 100 [(3, [0x68]), (300, [(1 : UInt8)])]) [0x62]).length,
+          conc 12 (Spec.applyEdit false ⟨0, 1, 7, [1], [(3, [0x68]), (300, [1])], [9]⟩ (.insert 100 [0x62]))) :=
+  insert_refines_middle 12 ⟨0, 1, 7, [1], [(3, [0x68]), (300, [1])], [9]⟩ 100 [0x62] (by unfold Shape; decide)
+    (by decide) (by decide) (by unfold fits; decide)
+/-- removal: the following option's header grows by two bytes (delta 10 → 297) -/
+example : removeOption (conc 0 ⟨0, 1, 7, [1], [(3, [0x68]), (290, [0x62]), (300, [1])], [9]⟩) 290 =
+    R.ok (1, conc 0 ⟨0, 1, 7, [1], [(3, [0x68]), (300, [1])], [9]⟩) := by decide
+example : removeOption (conc 0 ⟨0, 1, 7, [1], [(3, [0x68]), (290, [0x62]), (300, [1])], [9]⟩) 290 =
+      R.ok ((if Spec.hasOpt 290 [(3, [0x68]), (290, [0x62]), (300, [(1 : UInt8)])] = true then 1 else 0),
+        conc 0 (Spec.applyEdit false ⟨0, 1, 7, [1], [(3, [0x68]), (290, [0x62]), (300, [1])], [9]⟩ (.remove 290))) :=
+  (remove_refines 0 ⟨0, 1, 7, [1], [(3, [0x68]), (290, [0x62]), (300, [1])], [9]⟩ 290 (by unfold Shape; decide)).1
+/-- update in place: the value grows from 1 to 13 bytes (its length field gains an extension byte) -/
+example : updateOption (conc 0 ⟨0, 1, 7, [1], [(3, [0x68]), (290, [0x62]), (300, [1])], [9]⟩) 290 [1,2,3,4,5,6,7,8,9,10,11,12,13] =
+    R.ok (1, conc 0 ⟨0, 1, 7, [1], [(3, [0x68]), (290, [1,2,3,4,5,6,7,8,9,10,11,12,13]), (300, [1])], [9]⟩) := by decide
+example : updateOption (conc 0 ⟨0, 1, 7, [1], [(3, [0x68]), (290, [0x62]), (300, [1])], [9]⟩) 290 [] =
+    R.ok (1, conc 0 (Spec.applyEdit false ⟨0, 1, 7, [1], [(3, [0x68]), (290, [0x62]), (300, [1])], [9]⟩ (.update 290 []))) :=
+  update_refines_present 0 ⟨0, 1, 7, [1], [(3, [0x68]), (290, [0x62]), (300, [1])], [9]⟩ 290 [] (by unfold Shape; decide)
+    (by decide) (by decide) (by decide)
+/-- a sequence of all four kinds of edit, ending with a Proxy-Uri that brings its implicit Hop-Limit (D13) -/
+example : run (conc 0 ⟨0, 1, 7, [1], [(3, [0x68]), (300, [1])], [9]⟩)
+    ([.insert 290 [0x62], .update 3 [0x69], .remove 300, .setToken [5, 6], .remove 290, .insert 35 [0x78]].map callOf) =
+    R.ok ([4, 1, 1, 1, 1, 3], conc 0 ⟨0, 1, 7, [5, 6], [(3, [0x69]), (16, [16]), (35, [0x78])], [9]⟩) := by decide
+example : Spec.WF .tcp ⟨0, 1, 7, [5, 6], [(3, [0x69]), (16, [16]), (35, [0x78])], [9]⟩ := by decide
+example : EditTrace ⟨0, 1, 7, [1], [(3, [0x68]), (300, [1])], [9]⟩
+    [.insert 290 [0x62], .remove 300, .insert 35 [0x78]] [4, 1, 3]
+    ⟨0, 1, 7, [1], [(3, [0x68]), (35, [0x78]), (290, [0x62])], [9]⟩ :=
+  EditTrace.accepted false (by decide) (by decide) (EditTrace.accepted false (by decide) (by decide)
+    (EditTrace.accepted false (by decide) (by decide) (EditTrace.nil _)))
+/-- a received datagram (GET, token 01, Uri-Path "a", option 300, payload 09) and the PDU the parser leaves behind -/
+example : Spec.decode .udp [0x41, 0x01, 0x00, 0x07, 1, 0xb1, 0x61, 0xe1, 0x00, 0x14, 1, 0xff, 9] =
+    some ⟨0, 1, 7, [1], [(11, [0x61]), (300, [1])], [9]⟩ := by decide
+example : ofParsed 0 ⟨0, 1, 7, [1], [(11, [0x61]), (300, [1])], [9]⟩ [1, 0xb1, 0x61, 0xe1, 0x00, 0x14, 1, 0xff, 9] =
+    conc 0 ⟨0, 1, 7, [1], [(11, [0x61]), (300, [1])], [9]⟩ := by decide
+/-- hypotheses of `edits_then_roundtrip_wf` on a concrete instance -/
+example : Spec.WF .tcp ⟨0, 1, 7, [1], [(11, [0x61]), (300, [1])], [9]⟩ ∧
+    (∀ e ∈ [Spec.Edit.insert 290 [0x62], .update 11 [0x69], .remove 300, .setToken [5, 6]], editNumOk e) ∧
+    (∀ e ∈ [Spec.Edit.insert 290 [0x62], .update 11 [0x69], .remove 300, .setToken [5, 6]], editLenOk 1 e) := by
+  refine ⟨by decide, ?_, ?_⟩ <;> (intro e he; simp at he; rcases he with rfl | rfl | rfl | rfl <;> simp [editNumOk, editLenOk] <;> decide)
+/-- the open finding inside an edit sequence: the refused Proxy-Uri (capacity 12) leaves Hop-Limit = 16 behind -/
+example : run (conc 12 ⟨0, 1, 1, [], [], []⟩) ([.insert 35 (List.replicate 20 0x61)].map callOf) =
+    R.ok ([0], conc 12 ⟨0, 1, 1, [], [(16, [16])], []⟩) := by decide
+example : EditTrace ⟨0, 1, 1, [], [], []⟩ [.insert 35 (List.replicate 20 0x61)] [0] ⟨0, 1, 1, [], [(16, [16])], []⟩ :=
+  EditTrace.leftover (by decide) (EditTrace.nil _)
+
 end Coap.C04
